@@ -11,7 +11,9 @@ EXTENDS IntMath, Sequences, FiniteSets, TLC
 \* c.opts = [res ("auto" | "fit" | "same" | "explicit"), shape ("none" | "pair" | "int"), anchor ("default" | "center" | "xy"), tight, tol (<<n, d>>)]
 \* c.same_crs, c.same_units : relation between source and (resolved) target CRS
 \* "default options": every option at its default
-Identity(c) == c.same_crs /\ c.opts.res = "auto" /\ c.opts.shape = "none" /\ c.opts.anchor = "default" /\ ~c.opts.tight /\ c.opts.tol = <<1, 100>>
+\* (a raster registered by control points is not a GeoBox: for it the request computes an axis-aligned GeoBox, there is no "source GeoBox" to hand back)
+GcpSources == {"gcp_eu_32633_zoomed", "gcp_eu_4326_zoomed"}
+Identity(c) == c.source \notin GcpSources /\ c.same_crs /\ c.opts.res = "auto" /\ c.opts.shape = "none" /\ c.opts.anchor = "default" /\ ~c.opts.tight /\ c.opts.tol = <<1, 100>>
 \* what the code does: the source's own CRS short-circuits (returns the source) whenever resolution, shape and anchor are at their
 \* defaults - tight and tol are not looked at on that route; the statement demands it only for Identity and is silent on the rest of
 \* ShortCircuit, so there either the source itself or a grid meeting the general contract is accepted.  Any other request for the
